@@ -233,9 +233,11 @@ def tasks_for(tier):
     two = c03.two_model_start()
     if tier == 'quick':
         add('narrow-d2', narrow, 2, 'lite', KINDS)
+        add('narrow-full-d1', narrow, 1, 'full', KINDS)
         add('two-model-d1', two, 1, 'full', KINDS + ('DeleteModel',))
     else:
         add('narrow-d3', narrow, 3, 'lite', KINDS)
+        add('narrow-full-d2', narrow, 2, 'full', KINDS)
         add('two-model-d2', two, 2, 'lite', KINDS + ('DeleteModel',))
     return tasks
 
